@@ -68,7 +68,8 @@ class ProbeModel(GenericModel):
         self.rates = spec['rate'] * (1.0 + 0.1 * np.arange(n)) * (1 if tag % 2 == 0 else -1)
         self.x_first = flat_values(self.X).copy()
         self.t_first = float(spec.get('t0', 0.0))
-        self.time = [self.t_first]
+        # own_clock: the model was advanced on its own before it was coupled, so ITS clock differs from the clock of the Coupler that now drives it
+        self.time = [float(spec.get('own_clock', self.t_first))]
         self.dts = [parse_float(t) for t in spec['dts']]
         self.k_dt = 0
         self.stop_at = spec.get('stop_at')     # request stop at this accepted step (1-based, global)
